@@ -1240,6 +1240,21 @@ func (in *Interp) convert(v Value, from, to types.Type) Value {
 		case fb.Info()&types.IsInteger != 0 && tb.Info()&types.IsInteger != 0:
 			return in.tt.Resize(in.term(v), intWidth(tb), isSigned(fb))
 		case fb.Info()&types.IsInteger != 0 && tb.Info()&types.IsFloat != 0:
+			if a := in.term(v); in.cfg.Dom == SReal && strings.HasPrefix(a.op, "(_ int2bv ") && len(a.args) == 1 && a.args[0].sort == SInt && a.w <= 62 {
+				// float(intN(x)) round trip in the rational domain: float(int2bv_w(k)) = k whenever k
+				// fits in w bits.  Decided by a fork so that the common in-range path stays in linear
+				// integer/real arithmetic (bv2nat(int2bv(..)) makes z3 give up); the out-of-range
+				// path keeps the generic wrap-around encoding.
+				k := a.args[0]
+				lo, hi := int64(0), int64(1)<<uint(a.w)
+				if isSigned(fb) {
+					lo, hi = -(int64(1) << uint(a.w-1)), int64(1)<<uint(a.w-1)
+				}
+				inRange := in.tt.And(in.tt.mk("<=", SBool, 0, in.tt.IntC(lo), k), in.tt.mk("<", SBool, 0, k, in.tt.IntC(hi)))
+				if in.branch(inRange, "int-float-roundtrip") {
+					return in.tt.mk("to_real", SReal, 0, k)
+				}
+			}
 			r := in.tt.IntToFloat(in.cfg, in.term(v), isSigned(fb))
 			if tb.Kind() == types.Float32 && r.IsConst() {
 				r = in.tt.Float(float64(float32(r.f)), r.sort)
